@@ -786,7 +786,7 @@ func ruleLongComment(c *Ctx) {
 		for _, cl := range callsTo(fn, body) {
 			okBr := false
 			for _, cd := range g.CondsAtInstr(cl) {
-				if b, ok := cd.V.(*ssa.BinOp); ok && ((b.Op == token.EQL && cd.Sense) || (b.Op == token.NEQ && !cd.Sense)) {
+				if b, ok := cd.V.(*ssa.BinOp); ok && ((eqHolds(b, cd)) || (b.Op == token.NEQ && !cd.Sense)) {
 					if k, ok := constInt(b.Y); ok && k == '[' {
 						okBr = true
 					}
